@@ -90,7 +90,11 @@ SEMANTIC = [
     "a :- succ(a, X). query(a).", "a :- plus(1, X, Y). query(a).", "query(a; b). a. b.", "query((a, b)). a. b.", "0.5::(a, b). query(a).",
     "a :- set_state(x). query(a).", "a :- check_state(x). query(a).", "a :- reset_state. query(a).", "a :- condition(x). query(a).",
     "a :- create_scope(x, S). query(a).", "a :- find_scope(x, S). query(a).", "a :- call_in_scope(x, b). b. query(a).",
-    "a :- X = f(X). query(a).", "a :- numbervars(f(X), 0, E). query(a).", "a :- seq(X). query(a).", "a :- varnumbers(f(1), X). query(a).",
+    "a :- X = f(X). query(a).", "a :- X =.. [1,2]. query(a).", "a :- X =.. [\"s\",a]. query(a).", "a :- X =.. [f|T]. query(a).", "a :- X =.. []. query(a).",
+    "a :- X =.. [1.5,a,b]. query(a).", "p(3). a :- p(N), X =.. [N,a]. query(a).", "a :- X =.. [f(a),b]. query(a).", "a :- X =.. [Y,b]. query(a).",
+    "a :- functor(X, 1, 2). query(a).", "a :- functor(X, f, -1). query(a).", "a :- functor(X, f, a). query(a).", "a :- arg(0, f(a), X). query(a).",
+    "a :- length(L, -1). query(a).", "a :- length(L, a). query(a).", "a :- between(1, a, X). query(a).", "a :- succ(X, Y). query(a).",
+    "a :- atom_number(1, X). query(a).", "a :- sort([a|T], X). query(a).", "a :- compare(O, X, Y). query(a).", "a :- numbervars(f(X), 0, E). query(a).", "a :- seq(X). query(a).", "a :- varnumbers(f(1), X). query(a).",
 ]
 
 
